@@ -160,7 +160,7 @@ def angvel(chk, prog):
 
     def oracle(c, i):
         if c.op in ("isclose", "allclose"):
-            tol = c.text if isinstance(c.text, tuple) and c.text and c.text[0] == "tol" else ("tol", 1e-5, 1e-8)
+            tol = ("tol",) + tuple(getattr(c, "tol", None) or (1e-5, 1e-8))
             gates.append((str(c.lhs)[:40], str(c.rhs)[:40], tol[1], tol[2]))
             return False
         return False if c.op in ("<=", "<") else None
